@@ -1,8 +1,38 @@
 import Oracle.Util
+import MobiusModel.RWLock
 /-! Oracle handlers for C03 (model functions exposed on the line protocol). -/
 namespace Oracle
 open Mobius
 
-def c03Handlers : List (String × Handler) := []
+def rwAct : String → Option RWLock.Act
+  | "rlock" => some .rlock
+  | "runlock" => some .runlock
+  | "lockreq" => some .lockReq
+  | "lockgrant" => some .lockGrant
+  | "unlock" => some .unlock
+  | _ => none
+
+def natList (l : List Nat) : String := String.intercalate "," (l.map toString)
+
+/-- `rwrun <goroutine> <action> …`: the RWMutex model on a schedule.  An action that is blocked (or not
+    possible) in the current state is reported `0` and skipped, one that happens is reported `1`;
+    the final state follows. -/
+def rwRunOp (a : List String) : String :=
+  let rec go (s : RWLock.S) (acc : String) : List String → String
+    | t :: act :: rest =>
+      match rwAct act with
+      | none => "bad-op"
+      | some x =>
+        match RWLock.step s (num t) x with
+        | some s' => go s' (acc ++ "1") rest
+        | none => go s (acc ++ "0") rest
+    | _ =>
+      let w := match s.writer with
+        | some t => toString t
+        | none => "-"
+      s!"steps={if acc.isEmpty then "-" else acc} readers={natList s.readers} writer={w} waiting={natList s.waiting}"
+  go RWLock.init "" a
+
+def c03Handlers : List (String × Handler) := [("rwrun", rwRunOp)]
 
 end Oracle
